@@ -7,7 +7,14 @@ Correspondence (model = lean/QEModel/C04.lean, driver qedriver_c04):
                    (exact rationals of the doubles) must give the same status (exact) and,
                    on success, the same optimal value inside 1e-9          (envelope)
   * `minmax float` bit for bit (v, x, y); `minmax rat`: v inside 1e-9
-  * `init`, `pivot`, `lexmin`, `pivcol`: the kernels one by one, bit for bit
+  * `init`, `pivot`, `lexmin`, `pivcol`: the kernels one by one, bit for bit (tableaux with forced
+                   first-pass ties and with proportional rows = unresolvable ties)
+  * `lp float` again on capped runs (max_iter 0..6: status 1 in either phase, the
+                   `max_iter - num_iter` hand-over) and on real-valued LPs up to 8 rows x 10 columns
+                   (generic doubles against the tolerance comparisons), bit for bit
+  * `lpstat rat`   instrumented replay of the model: branch counters (degenerate pivots, ratio ties,
+                   entering-column ties, clean-up pivots, artificials left basic); must end in the
+                   same basis as the plain run
 Spec run (exact Fractions, independent of the model's correctness):
   * status 0: the code's own (x, lambd, fun) must be a primal-dual certificate:
     x >= 0, A_ub x <= b_ub, A_eq x = b_eq, lambd_ub >= 0, A'lambd >= c, c.x = fun = b.lambd
@@ -302,8 +309,30 @@ def fixed_lps():
 # ----------------------------------------------------------------------------
 # LP cases
 
-def lp_cases(ctx, lp, cases):
-    res, basis = call_linprog(lp)
+def lp_cases(ctx, lp, cases, max_iter=10 ** 6, float_only=False):
+    res, basis = call_linprog(lp, max_iter)
+    if float_only:
+        # real-valued data (outside the property's well-scaled domain): only the bit-for-bit tie, which
+        # exercises the tolerance comparisons of the kernels on generic doubles
+        ctx.count("lp-real:status=%d" % int(res.status))
+        tolf = "fea=%s piv=%s diff=%s" % (fx(FEA_TOL), fx(TOL_PIV), fx(TOL_RATIO_DIFF))
+        cases.append(Case("C04 lp float %s maxiter=%d %s" % (lp.wire(fxs, fxm), max_iter, tolf),
+                          impl_string(res, basis), nontrivial=res.num_iter > 2,
+                          cmp=lambda mo, im: None if mo.rsplit(" cert=", 1)[0] == im else "Float model and code differ",
+                          tag="lp-float-real"))
+        return
+    if max_iter < 10 ** 6:
+        # capped run: only the bit-for-bit tie (status 1 paths, `max_iter - num_iter` hand-over)
+        ctx.count("lp-capped:status=%d" % int(res.status))
+        tolf = "fea=%s piv=%s diff=%s" % (fx(FEA_TOL), fx(TOL_PIV), fx(TOL_RATIO_DIFF))
+        if res.num_iter > max_iter + lp.m + lp.k:
+            ctx.spec_fail("iteration_cap", "num_iter=%d exceeds max_iter=%d by more than the clean-up allows"
+                          % (res.num_iter, max_iter), lp.replay())
+        cases.append(Case("C04 lp float %s maxiter=%d %s" % (lp.wire(fxs, fxm), max_iter, tolf),
+                          impl_string(res, basis), nontrivial=True,
+                          cmp=lambda mo, im: None if mo.rsplit(" cert=", 1)[0] == im else "Float model and code differ",
+                          tag="lp-float-capped"))
+        return
     st = int(res.status)
     ctx.count("lp:status=%d" % st)
     ctx.count("lp:stream=" + lp.stream)
@@ -355,6 +384,21 @@ def lp_cases(ctx, lp, cases):
                       nontrivial=nontrivial, cmp=cmp_float, tag="lp-float"))
 
     # (3) exact Rat model: status exactly, value inside 1e-9; certificate verified here
+    memo = {}
+
+    def cmp_stat(mo, im):
+        d = parse_model(mo)
+        if d["st"] != str(st):
+            return "replay status differs"
+        if memo.get("basis") != d["basis"]:
+            return "instrumented replay ends in another basis than the model run"
+        for key in ("degenerate", "ties", "colties", "cleanup", "artleft"):
+            if int(d[key]) > 0:
+                ctx.count("lp:with-" + key)
+        ctx.count("lp:pivots=%s" % ("0" if d["pivots"] == "0" else "1-3" if int(d["pivots"]) <= 3 else
+                                    "4-7" if int(d["pivots"]) <= 7 else "8+"))
+        return None
+
     def mk_cmp(label):
         def cmp_rat(mo, im):
             d = parse_model(mo)
@@ -403,6 +447,8 @@ def lp_cases(ctx, lp, cases):
                 return "status differs (model %d, code %d)" % (mst, st)
             if mst == 0 and abs(F(d["fun"]) - fun) > TOL:
                 return "optimal value differs"
+            if label == "tol0":
+                memo["basis"] = d["basis"]
             if mst == 0 and label == "tol0":
                 if parse_rats(d["x"]) == code_x:
                     ctx.count("lp:rat-x-identical")
@@ -417,6 +463,8 @@ def lp_cases(ctx, lp, cases):
                       nontrivial=nontrivial, cmp=mk_cmp("tol0"), tag="lp-rat-tol0"))
     cases.append(Case("C04 lp rat %s maxiter=1000000 %s" % (lp.wire(enc, encm), tolf), "st=%d" % st,
                       nontrivial=nontrivial, cmp=mk_cmp("codetol"), tag="lp-rat-codetol"))
+    cases.append(Case("C04 lpstat rat %s maxiter=1000000 fea=0 piv=0 diff=0" % lp.wire(enc, encm), "st=%d" % st,
+                      nontrivial=False, cmp=cmp_stat, tag="lp-stat"))
 
 
 # ----------------------------------------------------------------------------
@@ -501,6 +549,19 @@ def kernel_cases(ctx, cases, count):
              [1.0 if i == j else float(rint(R, -1, 1, 0.6)) for j in range(L)] +
              [float(R.choice([0, 0, 1, 2]))] for i in range(L)]
         T.append([float(rint(R, -2, 3, 0.3)) for _ in range(nc)])
+        c = R.randrange(nm)
+        mode = R.random()
+        if mode < 0.5:
+            # force ties in the first pass: rhs proportional to the (positive) pivot-column entry
+            ratio = R.choice([0, 1, 2, 0.5])
+            for i in range(L):
+                if R.random() < 0.8:
+                    T[i][c] = float(R.randint(1, 3))
+                    T[i][-1] = ratio * T[i][c]
+            if mode < 0.15 and L >= 2:
+                # ... and in every lexicographic pass: two proportional rows (unresolvable tie)
+                k = float(R.choice([1, 2]))
+                T[1] = [k * v for v in T[0]]
         Tn = np.array(T)
         # _pivot_col
         for skip in (0, 1):
@@ -508,7 +569,6 @@ def kernel_cases(ctx, cases, count):
             cases.append(Case("C04 pivcol float T=%s skip=%d fea=%s" % (fxm(Tn), skip, fx(FEA_TOL)),
                               "%d %d" % (int(found), int(pc)), nontrivial=bool(found), tag="pivcol"))
         # _lex_min_ratio_test on the constraint rows
-        c = R.randrange(nm)
         argmins = np.empty(L, dtype=np.int_)
         sub = Tn[:-1, :].copy()
         found, row = _lex_min_ratio_test(sub, c, nm, argmins, TOL_PIV, TOL_RATIO_DIFF)
@@ -556,7 +616,8 @@ def run(ctx):
     cases = []
     ctx.rule = ("LPs with integer data |entries|<=3, <=5 rows, <=6 columns from the streams ub / eq / mixed / negb / "
                 "degenerate / bounded / feasible / redundant(+contradictory) / empty plus fixed instances (doctests, "
-                "Beale, Klee-Minty, zero rows, L=0); non-trivial = more than 2 simplex iterations; games: integer "
+                "Beale, Klee-Minty, zero rows, L=0), capped runs (max_iter 0..6) and real-valued LPs for the bit-for-bit tie; "
+                "non-trivial = more than 2 simplex iterations; games: integer "
                 "matrices <=4x4 |a|<=3 and real matrices <=8x8, non-trivial = no pure saddle point; distinct by "
                 "request line")
     ctx.assumptions.append("the class (optimal / infeasible / unbounded) of every generated LP is established by an "
@@ -566,15 +627,33 @@ def run(ctx):
     for lp in fixed_lps():
         lp_cases(ctx, lp, cases)
 
-    per = ctx.n(22, 260)
-    for stream in ["ub", "eq", "mixed", "negb", "degenerate", "bounded", "feasible", "redundant"]:
+    per = ctx.n(70, 2500)
+    for stream in ["ub", "eq", "mixed", "negb", "degenerate", "bounded", "feasible", "redundant", "bounded", "feasible"]:
         for _ in range(per):
             lp_cases(ctx, gen_lp(R, stream), cases)
-    for _ in range(ctx.n(4, 20)):
+    for _ in range(ctx.n(4, 60)):
         lp_cases(ctx, gen_lp(R, "empty"), cases)
+    for _ in range(ctx.n(40, 1500)):
+        lp_cases(ctx, gen_lp(R, R.choice(["bounded", "feasible", "mixed", "degenerate", "redundant"])), cases,
+                 max_iter=R.randint(0, 6))
+
+    nprng0 = ctx.np_rng()
+    for _ in range(ctx.n(80, 3000)):
+        n, m, k = R.randint(1, 10), R.randint(0, 5), R.randint(0, 3)
+        kind = R.random()
+        Aub = nprng0.standard_normal((m, n))
+        Aeq = nprng0.standard_normal((k, n))
+        if kind < 0.5:
+            Aub = np.abs(Aub)                      # bounded-ish: more status 0
+        x0 = np.abs(nprng0.standard_normal(n)) * (nprng0.random(n) < 0.5)
+        bub = Aub @ x0 + np.abs(nprng0.standard_normal(m)) * (1 if kind < 0.8 else -1)
+        beq = Aeq @ x0
+        c = nprng0.standard_normal(n)
+        lp_cases(ctx, LPD(c.tolist(), Aub.tolist(), bub.tolist(), Aeq.tolist(), beq.tolist(), "real"), cases,
+                 float_only=True)
 
     # games
-    for _ in range(ctx.n(60, 1200)):
+    for _ in range(ctx.n(200, 8000)):
         m, n = R.randint(1, 4), R.randint(1, 4)
         kind = R.random()
         A = [[R.randint(-3, 3) for _ in range(n)] for _ in range(m)]
@@ -588,16 +667,18 @@ def run(ctx):
         minmax_cases(ctx, A, cases, TOL, True, "minmax-int")
     if ctx.thorough:
         import itertools
-        for m, n in [(1, 1), (1, 2), (2, 1), (2, 2)]:
-            for vals in itertools.product(range(-2, 3), repeat=m * n):
+        for m, n, rng_ in [(1, 1, range(-3, 4)), (1, 2, range(-3, 4)), (2, 1, range(-3, 4)), (2, 2, range(-3, 4)),
+                           (2, 3, range(-1, 2)), (3, 2, range(-1, 2)), (3, 3, range(-1, 2))]:
+            for vals in itertools.product(rng_, repeat=m * n):
                 A = [list(vals[i * n:(i + 1) * n]) for i in range(m)]
                 minmax_cases(ctx, A, cases, TOL, True, "minmax-exh")
+        ctx.extra["minmax_exhaustive_scopes"] = "all integer matrices 1x1,1x2,2x1,2x2 with |a|<=3; 2x3,3x2,3x3 with |a|<=1"
     nprng = ctx.np_rng()
-    for _ in range(ctx.n(25, 300)):
+    for _ in range(ctx.n(80, 2500)):
         m, n = R.randint(1, 8), R.randint(1, 8)
         A = nprng.standard_normal((m, n)).tolist()
         minmax_cases(ctx, A, cases, F(1, 10 ** 6), False, "minmax-real")
 
-    kernel_cases(ctx, cases, ctx.n(40, 400))
+    kernel_cases(ctx, cases, ctx.n(150, 5000))
 
     ctx.run_cases(cases)
